@@ -469,7 +469,12 @@ def results_are_the_callers(it, ctx, prefix):
 
     def functions(s):
         return [f(t) for f in [s.get_voltage(i) for i in ids[:3]] + [s.get_current(ids[-1]), s.get_potential(nodes[-1]), s.get_power(ids[0])]]
+    def scalars(s):
+        return solve_all(s, nodes, ids)
     makers = {
+        'DCSolution': (lambda: S.DCSolution(o['circ']), scalars),
+        'ComplexSolution': (lambda: S.ComplexSolution(circuit=o['circ'], w=o['w']), scalars),
+        'ComplexSolution-peak': (lambda: S.ComplexSolution(circuit=o['circ'], w=o['w'], peak_values=True), scalars),
         'FrequencyDomainSolution': (lambda: S.FrequencyDomainSolution(circuit=o['circ'], w_max=4 * o['w']), series),
         'FrequencyDomainSolution-two-sided': (lambda: S.FrequencyDomainSolution(circuit=o['circ'], w_max=4 * o['w'], one_sided=False), series),
         'TimeDomainSolution': (lambda: S.TimeDomainSolution(o['circ'], 4 * o['w']), functions),
@@ -483,10 +488,40 @@ def results_are_the_callers(it, ctx, prefix):
             ctx.count('alias_clause_not_evaluated_query_raised')         # the history clause judges raising operations
             continue
         c1 = canon(first)
-        n = _scribble(first, spare)
+        # (a) an answer the caller keeps is not rewritten by later queries of the same object: every single answer is copied the
+        # moment it is handed out and compared with what the kept object reads after all the other queries were made
+        kept, at_return = [], []
+        for q, ident in [('get_voltage', i) for i in ids[:3]] + [('get_current', ids[-1]), ('get_potential', nodes[-1]), ('get_power', ids[0])]:
+            r = call(lambda: getattr(s, q)(ident))
+            if raised(r):
+                break
+            kept.append(r); at_return.append(canon(r) if not callable(r) else None)
+        d0 = None
+        for r, c in zip(kept, at_return):
+            if c is not None and same(c, canon(r)):
+                d0 = same(c, canon(r))
+        again = call(query, s)
+        ctx.count('alias_requeries')
+        d = ['raised', again.type] if raised(again) else (d0 or same(c1, canon(again)) or same(c1, canon(first)))
+        if d:
+            ctx.violation(f'{prefix}/earlier-result-changed-by-a-later-query/{name}', f'{name}: results kept from the first round of queries read differently after the same queries were made again ({d})', {})
+            continue
+        # (b) queries that are refused (unknown identifiers) leave no trace in the object
+        refused = 0
+        for q in ('get_voltage', 'get_current', 'get_power', 'get_potential'):
+            r = call(lambda: getattr(s, q)('no such id ' + q))
+            r = call(lambda: r(t)) if (not raised(r) and callable(r)) else r
+            refused += 1 if raised(r) else 0
+        ctx.count('refused_queries_in_between', refused)
+        after = call(query, s)
+        d = ['raised', after.type] if raised(after) else same(c1, canon(after))
+        if d:
+            ctx.violation(f'{prefix}/answers-changed-after-a-refused-query/{name}', f'{name}: the same queries answer differently after queries for unknown identifiers were refused in between ({d})', {})
+            continue
+        # (c) the caller overwrites what it was handed
+        n = _scribble(first, spare) + _scribble(again, spare) + _scribble(after, spare)
         ctx.count('result_arrays_overwritten_by_the_caller', n)
         second = call(query, s)
-        ctx.count('alias_requeries')
         d = ['raised', second.type] if raised(second) else same(c1, canon(second))
         if d:
             ctx.violation(f'{prefix}/result-aliases-internal-state/{name}', f'{name}: the same queries answer differently after the arrays returned the first time were overwritten in place by the caller ({d})', {})
